@@ -41,7 +41,7 @@ def make_read(h, spec, name, idx, paired):
     a.cigartuples = [tuple(x) for x in spec['cigar']]
     a.query_qualities = pysam.qualitystring_to_array('I' * len(spec['seq']))
     a.set_tag('SM', 'CELL_1')
-    a.set_tag('RX', 'ACG')
+    a.set_tag('RX', spec.get('umi') or 'ACG')
     if spec.get('mx') is not None:
         a.set_tag('MX', spec['mx'])
     if spec.get('lh') is not None:
@@ -125,13 +125,49 @@ def run_bam(lib, classes, molclasses):
     return res
 
 
+def run_mol(scen, classes, molclasses):
+    """one set of fragments through MoleculeIterator (in-memory read pairs, coordinate order) and
+    molecule.write_tags(), like bamtagmultiome does; returns the molecules (member fragments in the order
+    they were added, with their own site and strand) and the tags of every read afterwards"""
+    from singlecellmultiomics.molecule import MoleculeIterator
+    h = header()
+    pairs = []
+    for n, case in enumerate(scen['cases']):
+        specs = case['reads']
+        paired = len(specs) > 1 and all(s is not None for s in specs)
+        rs = [None if s is None else make_read(h, s, 'f%04d' % n, i, paired) for i, s in enumerate(specs)]
+        if paired:
+            a, b = rs
+            a.next_reference_id, a.next_reference_start = b.reference_id, b.reference_start
+            b.next_reference_id, b.next_reference_start = a.reference_id, a.reference_start
+            a.mate_is_reverse, b.mate_is_reverse = b.is_reverse, a.is_reverse
+            a.is_proper_pair = b.is_proper_pair = True
+        pairs.append([rs[0], rs[1] if len(rs) > 1 else None])
+    pairs.sort(key=lambda x: x[0].reference_start)
+    mols, tags = [], {}
+    for mol in MoleculeIterator(pairs, molclasses[scen['kind']], classes[scen['kind']],
+                                fragment_class_args=dict(scen['cfg']), yield_invalid=True):
+        members = []
+        for frag in mol:
+            loc = frag.site_location
+            members.append({'name': frag[0].query_name, 'site': None if loc is None else loc[1], 'strand': frag.strand})
+        ms = getattr(mol, 'site_location', None)
+        mol.write_tags()
+        for frag in mol:
+            for r in frag:
+                if r is not None:
+                    tags.setdefault(r.query_name, {})['R2' if r.is_read2 else 'R1'] = observe_read(r)
+        mols.append({'members': members, 'site': None if ms is None else ms[1]})
+    return {'molecules': mols, 'tags': tags}
+
+
 def handler(p):
     from singlecellmultiomics.fragment import NlaIIIFragment, CHICFragment
     from singlecellmultiomics.molecule import NlaIIIMolecule, CHICMolecule
     classes = {'nla': NlaIIIFragment, 'chic': CHICFragment}
     molclasses = {'nla': NlaIIIMolecule, 'chic': CHICMolecule}
     h = header()
-    out, bams = [], []
+    out, bams, mols = [], [], []
     old = sys.stdout
     sys.stdout = io.StringIO()
     try:
@@ -145,9 +181,14 @@ def handler(p):
                 bams.append(run_bam(lib, classes, molclasses))
             except BaseException as e:
                 bams.append({'error': '%s: %s' % (type(e).__name__, e)})
+        for scen in p.get('mol', []):
+            try:
+                mols.append(run_mol(scen, classes, molclasses))
+            except BaseException as e:
+                mols.append({'error': '%s: %s' % (type(e).__name__, e)})
     finally:
         sys.stdout = old
-    return {'cases': out, 'bam': bams}
+    return {'cases': out, 'bam': bams, 'mol': mols}
 
 
 if __name__ == '__main__':
